@@ -261,7 +261,45 @@ C05Checks(e) ==
 
 C05Year == IsEv("C05Year") /\ Consume(C05Checks(Trace[l]))
 
+(***************************************************************************)
+(* C02Year: new-moon days and the leap rule.                               *)
+(***************************************************************************)
+AbsV(x) == IF x < 0 THEN -x ELSE x
+C02Checks(e) ==
+  LET y == e.y
+      T == T4(e.t)
+      hs == [i \in 1..Len(T) |-> MJ(T[i])]
+      zq == [k \in 1..13 |-> e.terms[2 * k][1]]
+      \* an event within a minute of local midnight makes the day assignment depend on seconds: not judged
+      termNearMidnight == \E k \in 1..13 : e.terms[2 * k][3] < 60
+      moonNearMidnight == \E i \in 1..Len(e.nm) : AbsV(e.nm[i][1]) < 9000 \/ AbsV(e.nm[i][2]) < 9000      \* 0.009 deg = about one minute of elongation
+      n == IF ThirteenMonths(hs, zq) THEN 14 ELSE 13
+      labels == SuiLabels(y, LeapIndex(hs, zq), n)
+  IN IF e.p # 0 THEN Chk("C02.year.panic", y, FALSE)
+     ELSE
+       Chk("C02.table.shape", y, Len(T) = 15 /\ Len(e.terms) = 31 /\ Len(e.nm) = 15)
+       \* every month begins on the UTC+8 civil day that contains the true new moon
+       + SumN(Len(T), LAMBDA i :
+           LET first == MJ(T[i])
+               yr == YearOf(first)
+               x == e.nm[i]
+               key == << first, MY(T[i]), MM(T[i]) >>
+           IN IF yr < 1645 \/ yr > 3000 THEN 0
+              ELSE Chk("C02.newMoon.own-ephemeris", << key, x[1], x[2] >>, x[1] <= 0 /\ x[2] >= 0)
+                   + (IF yr < 1929 THEN 0
+                      ELSE LET near == IF x[4] < 86400 - x[4] THEN x[4] ELSE 86400 - x[4]
+                           IN Chk("C02.newMoon.independent", << key, x[3], x[4] >>,
+                                  x[3] = first \/ (near <= 300 + x[5] /\ AbsV(x[3] - first) <= 1))))
+       \* month 11 holds the winter solstice; leap month = first month without a major term (from 1929 on)
+       + (IF y < 1930 \/ termNearMidnight \/ moonNearMidnight THEN 0
+          ELSE Chk("C02.solstice-month-is-11", << y, zq[1], hs[1], hs[2] >>, hs[1] <= zq[1] /\ zq[1] < hs[2])
+               + Chk("C02.leap.thirteen-months-iff-leap", << y, ThirteenMonths(hs, zq) >>,
+                     ThirteenMonths(hs, zq) = (\E i \in 1..n : MM(T[i]) < 0) /\ (ThirteenMonths(hs, zq) => LeapIndex(hs, zq) # 0))
+               + Chk("C02.leap.placement-and-numbering", << y, LeapIndex(hs, zq), [i \in 1..n |-> << MY(T[i]), MM(T[i]) >>] >>,
+                     [i \in 1..n |-> << MY(T[i]), MM(T[i]) >>] = labels))
+C02Year == IsEv("C02Year") /\ Consume(C02Checks(Trace[l]))
+
 TraceInit == KitInit
-TraceNext == C06Year \/ LunarEdge \/ C01Year \/ C03Year \/ C05Year
+TraceNext == C06Year \/ LunarEdge \/ C01Year \/ C03Year \/ C05Year \/ C02Year
 TraceSpec == TraceInit /\ [][TraceNext]_tvars
 =============================================================================
